@@ -168,3 +168,36 @@ Definition check_trace (content0 : bytes) (recs : list (list bytes)) (obs : byte
     | None => None
     end
   end.
+
+(* ---- several writers on ONE file (all opened with O_APPEND) ----
+   Append-mode appenders on the same path (e.g. the old and the new appender
+   around a reconfiguration) and external `>>` writers share the file; each
+   appender handle h has its own BufWriter buffer.  O_APPEND semantics: every
+   write(2) of every handle goes to the CURRENT end of the file - which is what
+   Model/BufW.v's raw writes do on the shared `disk`. *)
+Inductive hop :=
+| HAppend (h : nat) (cs : record)     (* appender h: append one record *)
+| HExternal (d : bytes)               (* another O_APPEND writer adds d in one write *)
+| HBuild (h : nat).                   (* (re)build appender h in append mode on the path *)
+
+Record mstate := mkM { mdisk : bytes; mbufs : nat -> bytes; morc : list resp }.
+
+Definition set_buf (f : nat -> bytes) (h : nat) (b : bytes) : nat -> bytes :=
+  fun j => if Nat.eqb j h then b else f j.
+
+Definition hop_step (c : nat) (m : mstate) (op : hop) : mstate :=
+  match op with
+  | HAppend h cs =>
+    let s := res_state (append c (mkF (mdisk m) (mbufs m h) (morc m)) cs) in
+    mkM (disk s) (set_buf (mbufs m) h (buf s)) (orc s)
+  | HExternal d => mkM (mdisk m ++ d) (mbufs m) (morc m)
+  | HBuild h =>
+    (* a previous appender in slot h is dropped first: BufWriter::drop flushes *)
+    let s := snd (bw_flush (mkF (mdisk m) (mbufs m h) (morc m))) in
+    match fa_open true (Some (disk s)) (orc s) with
+    | Some s' => mkM (disk s') (set_buf (mbufs m) h (buf s')) (orc s')
+    | None => m
+    end
+  end.
+
+Definition hops (c : nat) (m : mstate) (ops : list hop) : mstate := fold_left (hop_step c) ops m.
